@@ -158,3 +158,36 @@ def play_state(prog, side_gold, step, pps_kind='None', sq=None, pc=None, trapped
 def place_state(prog, side_gold):
     ph = Enum('engine::Phase', enum_variant(prog, 'engine::Phase', 'PlacePhase'))
     return game_state(prog, side_gold, ph, move_number=BV.const(1, 64))
+
+
+def subst_lits(v, asg):
+    """The input value `v` with the input literals of `asg` ({variable: 0/1}) replaced by constants: the instance of a symbolic
+    input on which those literals are known (a case of a finite case split)."""
+    from . import bits as B_
+    if isinstance(v, BV):
+        out = []
+        ch = False
+        for b in v.bits:
+            if b.kind == 's' and len(b.sup) == 1 and b.sup[0] in asg:
+                val = asg[b.sup[0]]
+                out.append(B_.C1 if b.tt[1 if val else 0] else B_.C0)
+                ch = True
+            else:
+                out.append(b)
+        return BV(out, v.signed) if ch else v
+    if isinstance(v, Struct):
+        return Struct(v.ty, [subst_lits(f, asg) if isinstance(f, (BV, Struct, Enum)) else f for f in v.fields])
+    if isinstance(v, Enum):
+        return Enum(v.ty, v.var, [subst_lits(f, asg) if isinstance(f, (BV, Struct, Enum)) else f for f in v.fields])
+    return v
+
+
+def subst_sigma(v, idx):
+    """the instance of a bulk-item template for square `idx`"""
+    if isinstance(v, Term) and v.kind == 'sigma':
+        return BV.const(idx, v.w)
+    if isinstance(v, Struct):
+        return Struct(v.ty, [subst_sigma(f, idx) if isinstance(f, (Term, Struct, Enum)) else f for f in v.fields])
+    if isinstance(v, Enum):
+        return Enum(v.ty, v.var, [subst_sigma(f, idx) if isinstance(f, (Term, Struct, Enum)) else f for f in v.fields])
+    return v
